@@ -4,7 +4,14 @@ from common import *
 import vm_corr, vm_checks, progs
 
 PROP_MODULE = "NeverModel.Props.C13"
-REQUIRED = ["Never.C13.tail_call_restores_entry"]
+REQUIRED = ["Never.C13.tail_call_restores_entry",
+            # the tail-call marker front/tailrec.c: translator tie (gen/tailtab.py -> Gen/TailTab.lean) and the model's theorems
+            "Never.Src.Tail.C13.tail_table_agrees", "Never.Src.Tail.C13.retag_rule_agrees", "Never.Src.Tail.C13.tail_table_sound_partial",
+            "Never.Src.Tail.C13.tail_table_complete", "Never.Src.Tail.C13.tail_table_catch_and_nested", "Never.Src.Tail.C13.case_labels_covered",
+            "Never.Src.Tail.C13.cTab_eq_refTab", "Never.Src.Tail.C13.marker_sound", "Never.Src.Tail.C13.marker_sound_c_partial",
+            "Never.Src.Tail.C13.marker_complete", "Never.Src.Tail.C13.marker_complete_c", "Never.Src.Tail.C13.marker_skips_catch",
+            "Never.Src.Tail.C13.marker_skips_catch_c", "Never.Src.Tail.C13.tail_position_value",
+            "Never.Src.Tail.C13.operand_not_tail_counterexample", "Never.Src.Tail.C13.scrutinee_not_tail_counterexample"]
 
 def peak(r):
     for l in r["lines"]:
@@ -28,6 +35,15 @@ def count_tail_calls(dump_path):
         pass
     return n
 
+def marker_search():
+    """after a broken proof / tie of the marker's table: look for a program on which the implementation and the reference
+    evaluator disagree, among the position-class programs (tailpos.py) and the tail corpus"""
+    try:
+        import tailpos
+        return tailpos.search()
+    except Exception as e:
+        return None
+
 OPC = {}
 def load_opcodes():
     src = open(os.path.join(LEAN, "NeverModel", "Gen", "Opcodes.lean")).read()
@@ -38,7 +54,13 @@ def load_opcodes():
 def check(tier, seed):
     rep = Report("C13", tier, seed, "proof")
     run([sys.executable, os.path.join(VERIF, "gen", "opcodes.py")])
-    proof_stage(rep, PROP_MODULE, required=REQUIRED)
+    proof_stage(rep, PROP_MODULE, required=REQUIRED, search=marker_search)
+    tie = [n for n in rep.cov.get("translator_notes", []) if n.startswith("tailtab:")]
+    if tie:
+        # a shape of front/tailrec.c the translator does not recognise: the table was NOT regenerated, the theorems above are about the last good one
+        found = marker_search()
+        rep.violation("tailtab_tie_broken", "translator gen/tailtab.py: broken tie (front/tailrec.c has a shape that is not recognised; Gen/TailTab.lean NOT regenerated)\n%s%s"
+                      % ("\n".join(tie), ("\n--- failing input found on the implementation ---\n" + found) if found else ""), bool(found))
     load_opcodes()
     h = vm_corr.VmHarness()
     stats, rows = {}, []
